@@ -2,7 +2,7 @@
    specification and the checkers.  ExtrOcamlBasic only. *)
 From Coq Require Import List ZArith QArith Extraction ExtrOcamlBasic.
 From LMBase Require Import Res ListX IEEE.
-From LMDist Require Import DistModel DistInst DistGridModel.
+From LMDist Require Import DistModel DistInst DistGridModel DistStrictModel.
 
 Definition x_f64_of_bits := F64.of_bits.
 Definition x_f64_to_bits := F64.to_bits.
@@ -12,13 +12,15 @@ Definition x_f64_of_f32 := F64.of_f32.
 Definition x_f64_to_f32 := F64.to_f32.
 Definition f64_le := F64.le.
 Definition f64_is_nan := F64.is_nan.
+Definition x_f64_is_finite := F64.is_finite.
 
 Extraction Language OCaml.
 Extraction "dist_model.ml"
-  x_f64_of_bits x_f64_to_bits x_f32_of_bits x_f32_to_bits x_f64_of_f32 x_f64_to_f32 f64_le f64_is_nan
+  x_f64_of_bits x_f64_to_bits x_f32_of_bits x_f32_to_bits x_f64_of_f32 x_f64_to_f32 f64_le f64_is_nan x_f64_is_finite
   f64_build f64_build_fast f64_pvalue f64_score f64_scale f64_unscale_m f64_min_pvalue f64_roundtrip f64_sample
   f64_chk_table f64_chk_mono f64_chk_roundtrip
   f64_to_Q f32_to_Q f64_cell q_stage_a f64_ninf_agrees word_table tail_tab chk_bracket mass_defect
   f64_bsearch f64_index_exact f64_unscale_exact_on f64_roundtrip_pred f64_me common_k dy_cells at_k word_tableZ tail_tabZ tail_dy chk_bracket_dy chk_roundtrip_q
   check_C11_fails check_C11 check_C11_grid_fails check_C11_grid check_C11_red_fails c11_red conv_tableZ c11_in_scope c11_k c11_j c11_zc c11_zb c11_qm c11_delta
+  check_C11_strict_fails c11_bracket_unjudged c11_has_finite_cell f64_bg_ok f64_dims_ok f64_scale_pred f32_matrix_ok f32_matrix_ok_any
   Qle_bool Qred.
